@@ -167,6 +167,9 @@ func composeProps() {
 	if c05xHook != nil {
 		c05xHook()
 	}
+	if c17xHook != nil {
+		c17xHook()
+	}
 	add := func(target string, from ...string) {
 		t, ok := props[target]
 		if !ok {
